@@ -6,9 +6,11 @@ import (
 	"os/exec"
 	"path/filepath"
 	"strings"
+	"sync"
 	"time"
 
 	"verif/harness/daemon"
+	"verif/harness/sftrace"
 )
 
 // releaseRequery: "a successful release removes the unit and its files so that it is no longer known" - also a
@@ -127,4 +129,91 @@ func releaseRequery(res *Result, bin, base string, seed int64) {
 		}
 		requery(id, kind, "C13:released-unit-reappears@status-file-undeletable")
 	}
+	// 3. release raced with look-ups of the same id from other sessions (TLC: WorkUnit.tla, UnregFirst variant): the unit
+	// directory is made large (the payload fills it with files) so that RemoveAll takes a while
+	for round := 0; round < 3; round++ {
+		c, err := d.Dial(20 * time.Second)
+		if err != nil {
+			break
+		}
+		sr, _ := c.Submit("localhost", "sh", "", []byte(bigDirScript), 90*time.Second, nil)
+		c.Close()
+		if sr == nil || !sr.Acked {
+			res.note(name + ": could not create the large unit, release-vs-lookup case skipped")
+
+			break
+		}
+		id := sr.UnitID
+		k := &Know{ID: id, ToldState: -1}
+		if !waitState(d, k, func(s int64) bool { return s >= 2 }, 90*time.Second, func(string, string) {}) {
+			res.note(name + ": large unit did not finish in time, release-vs-lookup case skipped")
+
+			break
+		}
+		stop := make(chan struct{})
+		var pwg sync.WaitGroup
+		for p := 0; p < 4; p++ {
+			pwg.Add(1)
+			go func() {
+				defer pwg.Done()
+				cl, err := d.Dial(20 * time.Second)
+				if err != nil {
+					return
+				}
+				defer cl.Close()
+				for {
+					select {
+					case <-stop:
+						return
+					default:
+					}
+					if _, err := cl.Command("work status "+id, 20*time.Second); err != nil {
+						return
+					}
+				}
+			}()
+		}
+		time.Sleep(50 * time.Millisecond)
+		ok := release(id, "release")
+		time.Sleep(100 * time.Millisecond)
+		close(stop)
+		pwg.Wait()
+		if !ok {
+			res.note(name + ": release of the large unit was not answered 'released'")
+
+			continue
+		}
+		if _, err := os.Stat(d.UnitDir(id)); err == nil {
+			viol("C13:release-leaves-files", fmt.Sprintf("unit %s released (while other sessions looked it up) but its directory still exists", id))
+		}
+		requery(id, "large finished command (release raced with look-ups)", "C13:released-unit-known")
+		res.count("release_vs_lookup_rounds", 1)
+	}
+	// the order of the two steps of every release in this scenario: files first, index entry last
+	for _, sig := range releaseOrderProblems(traceEvents(d.Trace)) {
+		viol("C13:release-unregisters-before-removal", sig)
+	}
+}
+
+// the payload fills its own unit directory (found through its stdout file) with files
+const bigDirScript = "d=$(dirname $(readlink /proc/$$/fd/1))\nmkdir -p $d/junk\nfor i in $(seq 1 4000); do : > $d/junk/f$i; done\necho filled-0123456789\n"
+
+// releaseOrderProblems: per unit, "wu_release_done" (index entry deleted) must come after the "wu_release_rm" of that
+// release (WorkUnit.tla: ReleaseRm, then ReleaseUnreg).
+func releaseOrderProblems(evs []sftrace.Event) []string {
+	rmSeen := map[string]bool{}
+	var out []string
+	for _, e := range evs {
+		switch e.Str("ev") {
+		case "wu_release_rm":
+			rmSeen[e.Str("id")] = true
+		case "wu_release_done":
+			if !rmSeen[e.Str("id")] {
+				out = append(out, fmt.Sprintf("unit %s was dropped from the index (wu_release_done) before its directory was removed (wu_release_rm)", e.Str("id")))
+			}
+			rmSeen[e.Str("id")] = false
+		}
+	}
+
+	return out
 }
